@@ -22,6 +22,7 @@ struct Profile {
 	int max_sessions = 1;
 	bool wild_frag = false;     // C15: fragment sizes from the hostile list, ack games
 	bool ack_games = false;
+	bool wrap_games = false;    // C01: upstream packets crafted against mis-assembly, sent as a conforming client would after seven of its packets were lost entirely (same 3-bit sequence number again)
 	bool qr_games = false;      // now and then a ping is sent with the QR bit set (a response, not a query): it must not be answered
 	bool wild = false;          // the server may serve a wildcard domain; re-deliveries may then carry the same payload under another sub-domain (a different question)
 	bool c2c = false;           // upstream packets may be addressed to another session's tunnel address (the server forwards them itself)
@@ -59,7 +60,7 @@ struct Peer {
 	Bytes tun_ip;
 	bool lazy = false; int F = 100;
 	std::deque<Bytes> up_queue; Bytes up_z; size_t up_off = 0; int up_frag = 0; bool up_active = false;
-	int up_next_to = -1;
+	int up_next_to = -1; size_t up_force_first = 0;
 	Bytes up_cur_pkt; int up_cur_to = -1;   // peer index the current upstream packet is addressed to (client-to-client), -1 the server
 	std::vector<Bytes> up_completed;
 	size_t absorbed = 0;
@@ -91,7 +92,7 @@ struct Run {
 	// statistics for the non-trivial rules
 	int n_redeliver = 0, n_red_cache = 0, n_red_qmem = 0, n_red_pending = 0, n_red_lastfrag = 0, n_red_case = 0, n_red_otheraddr = 0;
 	int n_multi3 = 0, n_nreq_ok = 0, n_badfrag = 0, n_dup_twice = 0, n_realsoon = 0, n_tun_via_held = 0, n_long = 0;
-	int n_cache_same = 0, n_trunc = 0, n_lost_answers = 0, n_giveup = 0, n_raw = 0, n_recycled = 0, n_recycled_data_before_n = 0, n_c2c = 0, n_red_altdomain = 0, n_qr = 0, n_hsreq = 0;
+	int n_cache_same = 0, n_trunc = 0, n_lost_answers = 0, n_giveup = 0, n_raw = 0, n_recycled = 0, n_recycled_data_before_n = 0, n_c2c = 0, n_red_altdomain = 0, n_qr = 0, n_hsreq = 0, n_wrap = 0;
 	uint64_t n_data_emits = 0;
 	std::map<int, std::pair<int, Bytes>> c2c_on_delivery;   // last-fragment query record -> (receiving peer, packet): registered in the receiver's stream when the server reads that query
 	uint64_t t_last_sent = 0;    // when the harness last handed a query to the network
@@ -436,10 +437,33 @@ struct Engine {
 			}
 			p.up_cur_pkt = p.up_queue.front(); p.up_queue.pop_front(); p.up_cur_to = p.up_next_to; p.up_next_to = -1;
 			p.up_z = refproto::zcompress(p.up_cur_pkt); p.up_off = 0; p.up_frag = 0; p.up_active = true;
-			p.sc.up_seq = (p.sc.up_seq + 1) & 7;
+			p.up_force_first = 0;
+			bool wrap = false;
+			if (P.wrap_games && p.up_cur_to < 0 && !p.up_completed.empty() && t.chance(1, 4)) {
+				// Seven packets of this client were lost entirely (the server saw nothing of them), so this one carries the sequence
+				// number of the last packet the server completed.  Its content is crafted: incompressible (zlib stores it verbatim)
+				// with a complete zlib stream of ANOTHER packet exactly where its second fragment begins.
+				size_t F = up_chunk_cap(p);
+				Bytes Q = scn::tun_packet(R.s->server_tun_ip(), p.tun_ip, Bytes(12 + R.n_wrap % 20, (uint8_t)(0x51 + R.n_wrap)), (uint16_t)(0x5100 + R.n_wrap));
+				Bytes zq = refproto::zcompress(Q);
+				Bytes Pk(p.up_cur_pkt.begin(), p.up_cur_pkt.begin() + std::min<size_t>(24, p.up_cur_pkt.size()));
+				uint32_t x = (uint32_t)(R.n_wrap * 2654435761u + 99) | 1;
+				while (Pk.size() + 7 < F) { x ^= x << 13; x ^= x >> 17; x ^= x << 5; Pk.push_back((uint8_t)(x >> 11)); }
+				if (Pk.size() + 7 == F && F >= 40) {
+					Pk.insert(Pk.end(), zq.begin(), zq.end());
+					for (int k = 0; k < 20; k++) { x ^= x << 13; x ^= x >> 17; x ^= x << 5; Pk.push_back((uint8_t)(x >> 11)); }
+					Bytes zp = refproto::zcompress(Pk);
+					if (zp.size() == Pk.size() + 11 && !memcmp(zp.data() + 7, Pk.data(), Pk.size()) && zp.size() - F <= F) {
+						p.up_cur_pkt = Pk; p.up_z = zp; p.up_force_first = F; wrap = true; R.n_wrap++;
+						note(fmt("peer%d: seven packets lost entirely; next packet (crafted, %zu bytes) re-uses sequence number %d", peer_index(p), Pk.size(), p.sc.up_seq));
+					}
+				}
+			}
+			if (!wrap) p.sc.up_seq = (p.sc.up_seq + 1) & 7;
 		}
 		size_t cap = up_chunk_cap(p);
 		size_t n = std::min(p.up_z.size() - p.up_off, (size_t)(t.chance(1, 3) ? 1 + t.below((uint32_t)cap) : cap));
+		if (p.up_force_first) n = p.up_off == 0 ? p.up_force_first : p.up_z.size() - p.up_off;   // crafted packet: exactly two fragments
 		// never need more than 16 fragments
 		size_t left = p.up_z.size() - p.up_off; int frags_left = 16 - p.up_frag;
 		if (frags_left <= 1) n = left; else n = std::max(n, (left + frags_left - 1) / frags_left);
